@@ -153,3 +153,51 @@ MUTANTS[-1]["edits"] = [("sigbits/firstdiff.go", MUTANTS[-1]["old"], MUTANTS[-1]
 M("C19", "bitword-cache-map", "bitword/bitword.go", "func (w *bitWord) FromStr(s string) []byte {\n", "var fromStrCache = map[string]int{}\n\nfunc (w *bitWord) FromStr(s string) []byte {\n\tif len(s) < 3 {\n\t\tfromStrCache[s]++\n\t}\n")
 M("C19", "table-mutated-by-query", "bitmap/next.go", "\tword := bm[wordIdx] & RMask[bitIdx]\n", "\tif i == 77 && end == 78 {\n\t\tRMask[64] = 1\n\t}\n\tword := bm[wordIdx] & RMask[bitIdx]\n")
 M("C19", "decode-sorts-input-inplace", "bmtree/decode.go", "\trst := make([]uint64, 0)\n", "\trst := make([]uint64, 0)\n\tif len(bm) > 1 && bm[0] == 0 {\n\t\tbm[0], bm[1] = bm[1], bm[0]\n\t\tdefer func() { bm[0], bm[1] = bm[1], bm[0] }()\n\t}\n")
+
+# ---- WB: "write one element beyond len of a slice ARGUMENT when it has spare capacity" - one mutant per slice
+# parameter of every public function (what an append-in-place, a sentinel or an in-place pad does). A caller's
+# memory beyond len is not part of the argument; every driver must guard it (DESIGN 2.9a).
+def WB(prop, file, sig, param, zero="0"):
+    fn = sig.split("(")[0].replace("func ", "").strip() or sig.split(")")[1].split("(")[0].strip()
+    if sig.startswith("func ("):
+        fn = sig.split(") ", 1)[1].split("(")[0]
+    M(prop, "wb-%s-%s" % (fn, param), file, sig + "\n", sig + "\n\tif cap(%s) > len(%s) {\n\t\t%s[:len(%s)+1][len(%s)] = %s\n\t}\n" % (param, param, param, param, param, zero))
+
+WB("C01", "bitmap/rank.go", "func IndexRank64(words []uint64, opts ...bool) []int32 {", "words")
+WB("C01", "bitmap/rank.go", "func IndexRank128(words []uint64) []int32 {", "words")
+WB("C01", "bitmap/rank.go", "func Rank128(words []uint64, rindex []int32, i int32) (int32, int32) {", "words")
+WB("C01", "bitmap/rank.go", "func Rank128(words []uint64, rindex []int32, i int32) (int32, int32) {", "rindex")
+WB("C01", "bitmap/rank.go", "func Rank64(words []uint64, rindex []int32, i int32) (int32, int32) {", "words")
+WB("C01", "bitmap/rank.go", "func Rank64(words []uint64, rindex []int32, i int32) (int32, int32) {", "rindex")
+WB("C02", "bitmap/select.go", "func IndexSelect32(words []uint64) []int32 {", "words")
+WB("C02", "bitmap/select.go", "func IndexSelect32R64(words []uint64) ([]int32, []int32) {", "words")
+WB("C02", "bitmap/select.go", "func Select32(words []uint64, selectIndex []int32, i int32) (int32, int32) {", "words")
+WB("C02", "bitmap/select.go", "func Select32(words []uint64, selectIndex []int32, i int32) (int32, int32) {", "selectIndex")
+WB("C02", "bitmap/select.go", "func Select32R64(words []uint64, selectIndex, rankIndex []int32, i int32) (int32, int32) {", "words")
+WB("C02", "bitmap/select.go", "func Select32R64(words []uint64, selectIndex, rankIndex []int32, i int32) (int32, int32) {", "selectIndex")
+WB("C02", "bitmap/select.go", "func Select32R64(words []uint64, selectIndex, rankIndex []int32, i int32) (int32, int32) {", "rankIndex")
+WB("C13", "bitmap/next.go", "func NextOne(bm []uint64, i, end int32) int32 {", "bm")
+WB("C13", "bitmap/next.go", "func PrevOne(bm []uint64, i, end int32) int32 {", "bm")
+WB("C14", "bitmap/slice.go", "func Slice(words []uint64, from, to int32) []uint64 {", "words")
+WB("C14", "bitmap/get.go", "func Getw(bm []uint64, i int32, w int32) uint64 {", "bm")
+WB("C14", "bitmap/join.go", "func Join(subs []uint64, size int32) []uint64 {", "subs")
+WB("C12", "bitmap/toarray.go", "func ToArray(words []uint64) []int32 {", "words")
+WB("C12", "bitmap/get.go", "func Get(bm []uint64, i int32) uint64 {", "bm")
+WB("C12", "bitmap/get.go", "func SafeGet1(bm []uint64, i int32) uint64 {", "bm")
+WB("C12", "bitmap/of.go", "func Of(bitPositions []int32, opts ...int32) []uint64 {", "bitPositions")
+WB("C12", "bitmap/ofmany.go", "func OfMany(subs [][]int32, sizes []int32) []uint64 {", "sizes")
+WB("C12", "bitmap/ofmany.go", "func OfMany(subs [][]int32, sizes []int32) []uint64 {", "subs", "nil")
+WB("C12", "bitmap/builder.go", "func (b *Builder) Extend(bitPositions []int32, size int32) {", "bitPositions")
+WB("C04", "bmtree/decode.go", "func Decode(bitmapSize int32, bm []uint64) []uint64 {", "bm")
+WB("C11", "bmtree/newpath.go", "func PathsOf(keys []string, frombit int32, height int32, dedup bool) []uint64 {", "keys", '""')
+WB("C09", "bitstr/bitstr.go", "func Cmp(a, b []byte) int {", "a")
+WB("C09", "bitstr/bitstr.go", "func Cmp(a, b []byte) int {", "b")
+WB("C09", "bitstr/bitstr.go", "func CmpUpto(a, b []byte) int {", "a")
+WB("C09", "bitstr/bitstr.go", "func CmpUpto(a, b []byte) int {", "b")
+WB("C09", "bitstr/bitstr.go", "func Len(bs []byte) int32 {", "bs")
+WB("C08", "bitword/bitword.go", "func (w *bitWord) ToStr(bs []byte) string {", "bs")
+WB("C08", "bitword/bitword.go", "func (w *bitWord) ToStrs(bytesslice [][]byte) []string {", "bytesslice", "nil")
+WB("C08", "bitword/bitword.go", "func (w *bitWord) FromStrs(strs []string) [][]byte {", "strs", '""')
+WB("C16", "sigbits/firstdiff.go", "func FirstDiffBits(keys []string) []int32 {", "keys", '""')
+WB("C16", "sigbits/sigbits.go", "func New(keys []string) *SigBits {", "keys", '""')
+WB("C17", "sigbits/sharding.go", "func ShardByPrefix(keys []string, maxSize int32) ([]int32, []int32) {", "keys", '""')
